@@ -1687,7 +1687,14 @@ class Node:
                 f"No peer is waiting for an answer with ID "
                 f"{hex(message.header.hop_by_hop_identifier)}")
 
-        del self._peer_waiting_answer[waiting_conn_ident][message_id]
+        try:
+            del self._peer_waiting_answer[waiting_conn_ident][message_id]
+        except KeyError:
+            # removed since the search above: the connection has gone away,
+            # or another thread has submitted an answer for the same request
+            raise NotRoutable(
+                f"No peer is waiting (any more) for an answer with ID "
+                f"{hex(message.header.hop_by_hop_identifier)}") from None
 
         conn = self.connections.get(waiting_conn_ident)
         if conn is None:
